@@ -1194,6 +1194,46 @@ def oracle_exact_full(ctx, budget):
             ctx.fail('exact-full:first-pass-exit', f'first recorded difference {th[0]:.3g} is below tol=1e-3 but the iteration ran {len(th)} passes; {desc}', case)
 
 
+LARGE_CELLS = [
+    # (N, total_points or None for the default fraction, x kind, max_iter, use_threshold, delta as a fraction of the span or None)
+    (600, 500, 'uniform', 2, False, 0.02),
+    (600, 500, 'random', 3, True, 0.05),
+    (1200, None, 'uniform', 2, False, None),
+    (1200, None, 'random', 3, True, 0.02),
+    (2500, None, 'uniform', 2, False, None),
+    (2500, None, 'geometric', 2, False, 0.01),
+]
+
+
+def oracle_large_cells(ctx, budget):
+    """FIXED large cells of the strategy grid (kernel caches of 3e5 .. 1.25e6 entries, at least one pass after the first,
+    delta > 0 so that few points are fitted): conserve_memory True vs False bitwise, as for the small cells"""
+    for ci, (n, tp, kind, max_iter, thr, dfrac) in enumerate(LARGE_CELLS):
+        rng = np.random.default_rng(4000 + ci)
+        x = gen_x(rng, n, kind)
+        y = gen_y(rng, x, 'peaks')
+        kw = dict(poly_order=1 + ci % 2, max_iter=max_iter, tol=0.0)
+        if tp is not None:
+            kw['total_points'] = tp
+        if dfrac is not None:
+            kw['delta'] = dfrac * float(x[-1] - x[0])
+        if thr:
+            kw['use_threshold'] = True
+        if ci % 3 == 1:
+            kw['weights'] = rng.uniform(0.2, 1.0, n)
+        rt = run_loess(x, y, kw, True)
+        rf = run_loess(x, y, kw, False)
+        ctx.case(('large', ci), nontrivial=rt[0] == 'ok' and len(rt[4]) >= 2, kind=f'large:N={n}')
+        if not same_bits(rt, rf):
+            what = (f'conserve_memory=True and False differ (bitwise) for N={n}, total_points={tp or "default fraction"}, max_iter={max_iter}, '
+                    f'use_threshold={thr} (kernel cache of {n * (tp or math.ceil(0.2 * n))} entries)')
+            if rt[0] == 'ok' and rf[0] == 'ok':
+                what += f'; max difference {max_ulp(rt, rf):.3g} array-ulps'
+            else:
+                what += f'; outcomes {rt[:2] if rt[0] == "exc" else "ok"} vs {rf[:2] if rf[0] == "exc" else "ok"}'
+            ctx.fail(f'memory:large:N={n}', what, cfg_case({'x': x, 'y': y, 'kw': kw}))
+
+
 def stage(ctx, name, fn, *a):
     """one stage of the run; an exception (e.g. a private kernel whose signature changed) is a broken obligation and
     must not stop the search for a concrete failing input in the later stages"""
@@ -1231,6 +1271,7 @@ def run(ctx):
     stage(ctx, 'correspondence_driver', correspondence_driver)
     budget = 1 if (ok and not ctx.broken) else 4
     stage(ctx, 'oracle_strategy_grid', oracle_strategy_grid, budget)
+    stage(ctx, 'oracle_large_cells', oracle_large_cells, budget)
     stage(ctx, 'oracle_magnitude', oracle_magnitude, budget)
     stage(ctx, 'oracle_exact_full', oracle_exact_full, budget)
     stage(ctx, 'oracle_fits', oracle_fits, budget)
